@@ -12,6 +12,7 @@
 #include <setjmp.h>
 #include <poll.h>
 #include <sys/time.h>
+#include <dirent.h>
 using namespace verif;
 
 // ------------------------------------------------------------------ values
@@ -514,6 +515,56 @@ static std::string oclass(const std::string &r) // outcome class (vacuity guard)
     return o;
 }
 
+// The backends must be built from the same source state: bin/vcheck builds the three libraries one after the other (minutes),
+// and /repo may be edited in between.  Newest library source file newer than the oldest libsymengine.a => inconsistent builds.
+static time_t newest_source(const std::string &dir, std::string &which)
+{
+    time_t best = 0;
+    DIR *d = opendir(dir.c_str());
+    if (!d)
+        return 0;
+    while (struct dirent *e = readdir(d)) {
+        std::string n = e->d_name;
+        if (n == "." || n == ".." || n == "tests" || n == "utilities")
+            continue;
+        std::string p = dir + "/" + n;
+        struct stat st;
+        if (stat(p.c_str(), &st) != 0)
+            continue;
+        if (S_ISDIR(st.st_mode)) {
+            std::string w;
+            time_t t = newest_source(p, w);
+            if (t > best)
+                best = t, which = w;
+        } else if (n.size() > 2 && (n.substr(n.size() - 2) == ".h" || (n.size() > 4 && n.substr(n.size() - 4) == ".cpp") || n.substr(n.size() - 2) == ".y")) {
+            if (st.st_mtime > best)
+                best = st.st_mtime, which = p;
+        }
+    }
+    closedir(d);
+    return best;
+}
+static bool builds_consistent(std::string &why)
+{
+    const char *repo = getenv("VERIF_REPO");
+    std::string src;
+    time_t ts = newest_source(std::string(repo ? repo : "/repo") + "/symengine", src);
+    for (auto &e : EXES) {
+        size_t p = e.rfind("/drv/");
+        if (p == std::string::npos)
+            continue;
+        std::string lib = e.substr(0, p) + "/lib/symengine/libsymengine.a";
+        struct stat st;
+        if (stat(lib.c_str(), &st) != 0)
+            continue;
+        if (ts > st.st_mtime) {
+            why = src + " is newer than " + lib;
+            return false;
+        }
+    }
+    return true;
+}
+
 static long long CHUNK = 256;
 
 int main(int argc, char **argv)
@@ -561,6 +612,14 @@ int main(int argc, char **argv)
     if (EXES.size() < 2) {
         fprintf(stderr, "C43: needs at least two backends in VERIF_EXES\n");
         return 2;
+    }
+    {
+        std::string why;
+        if (!replaying() && !builds_consistent(why)) {
+            fprintf(stderr, "C43: the backend libraries were not built from the same source state (%s): the repository changed while bin/vcheck "
+                            "was building; run again\n", why.c_str());
+            return 2;
+        }
     }
     const size_t NB = EXES.size();
     CHUNK = std::max(64LL, std::min(1024LL, NCALLS / 200)); // >= 64 chunks so that all workers are used; deterministic per tier
@@ -829,7 +888,7 @@ static void build_alphabets(bool T)
     LONGS = lst({"0", "1", "-1", "2", "-2", "3", "6", "-6", "4", "9223372036854775807", "-9223372036854775807", "-9223372036854775808"});
     NR = lst({"0", "1", "2", "3", "4", "5", "7", "64", "100"});
     if (T)
-        for (const char *s : {"6", "10", "13", "63", "65", "127", "1000"})
+        for (const char *s : {"6", "10", "13", "63", "65", "127"}) // n = 1000 needs > 8 s per call on boostmp for anything above 2^89 (same root cause as perfect_power)
             addu(NR, Z(s));
     U = rng(0, T ? 130 : 50);
     for (const char *s : {"63", "64", "90", "91", "92", "93", "94", "100", "128", "200", "500", "1000"})
